@@ -534,6 +534,7 @@ func c03LateReaderF(kind string, m int, fail bool, capn int, readFails bool) *ex
 				vsched.Fail(fam+"|messages", "the handler sent %d messages before finishing, the late reader received %d (then %s)", m, len(r.CRecv), env.ErrStr(r.CErr))
 			}
 			c03Same(fam, fmt.Sprintf("burst of %d to a late reader", m), herr, r.CErr, true)
+			finishDirect(d, w, false) // (wire protocol)
 		},
 	}
 }
